@@ -635,7 +635,10 @@ class Prepared:
                 if r[0] == 'timeout':
                     res.skip('cxx-timeout-inconclusive', n_eval)
                     continue
-                if r[0] == 'abort':
+                if r[0] == 'spin':
+                    key = 'nonterminating/compiled-call-spins'
+                    got = f'compiled call consumed {cxx.SPIN_CPU_SECONDS} CPU-seconds without returning (interpreter returned)'
+                elif r[0] == 'abort':
                     msg = r[2]
                     m = re.search(r"Assertion `(.*)' failed", msg)
                     why = ('assert:' + re.sub(r'_tmp\d+|\b[a-z]+\d+(_\d+)?\b', '_', m.group(1))[:60]) if m else f'signal:{r[1]}'
